@@ -12,7 +12,9 @@ mod pdbtext;
 mod rng;
 mod st;
 mod c01;
+mod c03;
 mod c05;
+mod full;
 mod c07;
 mod pdbio;
 mod c08;
@@ -117,6 +119,7 @@ fn gen(prop: &str, tier: &str, seed: u64) -> Vec<String> {
     let mut r = rng::Rng::new(seed, prop);
     match prop {
         "C01" => c01::gen(tier, &mut r),
+        "C03" => c03::gen(tier, &mut r),
         "C05" => c05::gen(tier, &mut r),
         "C07" => c07::gen(tier, &mut r),
         "C08" => c08::gen(tier, &mut r),
@@ -136,6 +139,7 @@ fn gen(prop: &str, tier: &str, seed: u64) -> Vec<String> {
 fn exec(prop: &str, case: &str) -> Exec {
     match prop {
         "C01" => c01::exec(case),
+        "C03" => c03::exec(case),
         "C05" => c05::exec(case),
         "C07" => c07::exec(case),
         "C08" => c08::exec(case),
